@@ -84,8 +84,10 @@ package ipfslog
 //@   lockrequires held[om(all).lock] >= 0
 //@   ensures validSlice(result) && (result == nil || fresh(result))
 //@   ensures [references-come-from-the-traversal] forall i int :: 0 <= i && i < len(result) ==> inMap(all, result[i])
+//@   ensures [references-are-logarithmic] len(result) <= ite(maxDistance >= 1, ilog2(maxDistance) + 1, 0)
 //@   loop 0
 //@     invariant 1 <= i && i <= 562949953421312
+//@     invariant len(entries) <= ilog2(i) && (i == 1 || (i % 2 == 0 && i / 2 <= maxDistance))
 //@     invariant validSlice(entries)
 //@     invariant entries == nil || fresh(entries)
 //@     invariant forall j int :: 0 <= j && j < len(entries) ==> inMap(all, entries[j])
@@ -109,6 +111,8 @@ package ipfslog
 //@   ensures [appended-entry-clock-id-is-writer-key] err == nil ==> result0.Clock.ID == old(l.Clock.(*entry.LamportClock).ID)
 //@   ensures [appended-entry-time-dominates-clock] err == nil ==> etime(result0) > old(l.Clock.(*entry.LamportClock).Time)
 //@   ensures [appended-entry-time-dominates-heads] err == nil ==> forall k string :: old(has(om(l.heads).values, k)) ==> etime(result0) > etime(old(om(l.heads).values[k]))
+//@   ensures [skip-references-are-logarithmic-in-pointer-count] err == nil && opts != nil && opts.PointerCount >= 1 ==> len(result0.Refs) <= ilog2(opts.PointerCount) + 2
+//@   ensures [skip-references-default-pointer-count] err == nil && (opts == nil || opts.PointerCount == 0) ==> len(result0.Refs) <= 2
 //@   ensures [appended-entry-is-the-single-head] err == nil ==> forall k string :: has(om(l.heads).values, k) <==> k == ehash(result0)
 //@   ensures [appended-entry-is-in-the-log] err == nil ==> inMap(l.Entries, result0) && inMap(l.heads, result0)
 //@   ensures [append-keeps-every-entry] forall k string :: old(has(om(l.Entries).values, k)) ==> has(om(l.Entries).values, k) && (k != ehash(result0) || err != nil ==> om(l.Entries).values[k] == old(om(l.Entries).values[k]))
@@ -124,7 +128,7 @@ package ipfslog
 //@     invariant distinctCids(next)
 //@     invariant [every-head-is-a-sorted-head] forall k string :: old(has(om(l.heads).values, k)) ==> exists j int :: 0 <= j && j < len($r) && ehash($r[j]) == k
 //@   loop 1
-//@     invariant fresh(refs) && off(refs) == 0 && validSlice(references) && ref(refs) != ref(next)
+//@     invariant fresh(refs) && off(refs) == 0 && validSlice(references) && ref(refs) != ref(next) && len(refs) <= $k
 //@     loopkeeps elems(next)
 //@   loop 2
 //@     invariant true
